@@ -10,13 +10,17 @@ import StepModel.AttrNull
     setstate <index> <state>                                                                                       -> R ok | R bad-index
     dump                                                    -> D n=<count> max=<maxFileId> | <id>/<TYPE>/<state> …
     insts                                                   -> X <inst> | <inst> …
-    writework                                               -> W <L> <inst> | …          (what WriteWorkingData emits)
+    writework [<writeComments 0|1>]                         -> W <L> <inst> | …          (what WriteWorkingData emits; default 1)
+    fileheader <hex>*                                       header entities of the file the next read / readwork stands for -> R ok
+    header                                                  -> H <hex>*                  (header instances the STEPfile holds = what a save writes)
     anything else -> R bad-op -/
 namespace StepModel.SessionProto
 open StepModel StepModel.P21 StepModel.Generated StepModel.Session StepModel.AttrNull
 
 structure St where
   sess : Sess := cleared
+  header : List String := []          -- header instances the STEPfile holds
+  nextHeader : List String := []      -- header of the file the next read/readwork command stands for
   strict : Bool := false
   full : List (String × List AttrD) := []
   own : List (String × List AttrD) := []
@@ -115,13 +119,14 @@ def handle (st : St) (line : String) : St × String :=
       else (st, "R bad-op")
     | none => (st, "R bad-op")
   | ["reset", s] =>
-    if s = "0" ∨ s = "1" then ({ st with sess := cleared, strict := s = "1" }, "R reset") else (st, "R bad-op")
+    if s = "0" ∨ s = "1" then ({ st with sess := cleared, strict := s = "1", header := [], nextHeader := [] }, "R reset")
+    else (st, "R bad-op")
   | "read" :: rest =>
     match parseInsts rest with
     | some f =>
       if f.all (knows st) then
         let s' := readExchange (fillFn st) (asevFn st) f
-        ({ st with sess := s' }, readReply (fileIdIncrOf cleared.maxId) s')
+        ({ st with sess := s', header := st.nextHeader }, readReply (fileIdIncrOf cleared.maxId) s')
       else (st, "R bad-schema")
     | none => (st, "R bad-op")
   | "append" :: rest =>
@@ -136,8 +141,8 @@ def handle (st : St) (line : String) : St × String :=
     match parseEntries rest with
     | some es =>
       if es.all (fun e => knows st e.inst) then
-        let s' := readWorking (fillFn st) (asevFn st) es
-        ({ st with sess := s' }, readReply (fileIdIncrOf cleared.maxId) s')
+        let fs := readWorkingFile (fillFn st) (asevFn st) ⟨st.sess, st.header⟩ ⟨st.nextHeader, es⟩
+        ({ st with sess := fs.sess, header := fs.header }, readReply (fileIdIncrOf cleared.maxId) fs.sess)
       else (st, "R bad-schema")
     | none => (st, "R bad-op")
   | ["setstate", i, s] =>
@@ -151,9 +156,17 @@ def handle (st : St) (line : String) : St × String :=
     (st, s!"D n={st.sess.nodes.length} max={st.sess.maxId} |" ++
       String.join (st.sess.nodes.map (fun n => s!" {n.inst.id}/{typeName n.inst}/{stName n.state}")))
   | ["insts"] => (st, "X " ++ " | ".intercalate (st.sess.nodes.map (fun n => encodeInst n.inst)))
-  | ["writework"] =>
-    (st, "W " ++ " | ".intercalate ((writeWorking st.sess).map (fun e =>
-      (match e.letter with | some c => c.toString | none => "-") ++ " " ++ encodeInst e.inst)))
+  | "writework" :: rest =>
+    match (match rest with | [] => some true | ["1"] => some true | ["0"] => some false | _ => none) with
+    | some wc =>
+      (st, "W " ++ " | ".intercalate ((writeWorkingFile wc ⟨st.sess, st.header⟩).entries.map (fun e =>
+        (match e.letter with | some c => c.toString | none => "-") ++ " " ++ encodeInst e.inst)))
+    | none => (st, "R bad-op")
+  | "fileheader" :: rest =>
+    match rest.mapM unhex with
+    | some hs => ({ st with nextHeader := hs }, "R ok")
+    | none => (st, "R bad-op")
+  | ["header"] => (st, "H " ++ " ".intercalate (st.header.map hexOf))
   | _ => (st, "R bad-op")
 
 partial def loop (h : IO.FS.Stream) (out : IO.FS.Stream) (st : St) : IO Unit := do
